@@ -519,6 +519,8 @@ pub fn park_timeout(dur: Duration) {
 /// run the coroutine
 #[inline]
 pub(crate) fn run_coroutine(mut co: CoroutineImpl) {
+    #[cfg(may_verif)]
+    crate::verif::event(1);
     match co.resume() {
         Some(ev) => ev.subscribe(co),
         None => {
